@@ -276,7 +276,7 @@ def write_evidence(pid, tier, seed, spec, results, lemma_res, b, violations, bvi
     samples = [{'obligation': o.id, 'kind': o.kind, 'backend': o.backend, 'ms': o.ms, 'goal': str(o.goal)[:300]} for o in obls[:3]]
     cov = {'obligations': len(obls) + lem_total, 'discharged': len(dis) + lem_ok, 'code_obligations': len(obls), 'theory_lemma_obligations': lem_total,
            'discharged_by_backend': by_backend, 'solver_ms_total': sum(o.ms or 0 for o in obls),
-           'checker_cmd': 'python3-vt -m gvc.driver %s --tier %s  (z3-new 5.1 CLI, then cvc5 1.0.3 on anything not unsat; one fresh process per obligation)' % (pid, tier),
+           'checker_cmd': 'python3-vt -m gvc.driver %s --tier %s  (portfolio per obligation, fresh processes: z3 5.1 E-matching only, z3 5.1 default, cvc5 1.0.3, z3 4.8.12; first unsat wins; failing obligations are retried with 60 s)' % (pid, tier),
            'trusted_base': ['gvc symbolic executor and its table of Python built-in semantics (gvc/symexec.py)', 'z3 5.1.0 / cvc5 1.0.3',
                             'value semantics for containers: soundness side condition (no mutation through aliases) checked by gvc/effects.py'] + assumed + lfp + assumed_contracts + spec.get('trusted', []),
            'functions_under_contract': fns, 'samples': samples,
